@@ -1285,3 +1285,66 @@ def _replay_annotate(inputs, ghost=None):
 
 
 CUSTOM["cooler.api:annotate"] = _replay_annotate
+
+
+# ---------------------------------------------------------------- create_from_unordered (C06, C01)
+def _replay_create_from_unordered(inputs, ghost=None):
+    """the real function on real files: the counter-model's (number of chunks, max_merge) when small, then the adapter's own
+    family of chunk counts x max_merge x buffer sizes; judged against the property itself - the result equals the in-memory
+    group-by sum of all records, for every chunk count and merge plan."""
+    import os
+    import shutil
+    import tempfile
+    import numpy as np
+    import pandas as pd
+    import cooler
+    from cooler.create import create_from_unordered
+    g = {k: conv(v) for k, v in (ghost or {}).items()}
+    fam = []
+    try:
+        n, mm = int(g.get("r_n")), int(g.get("r_max_merge"))
+        if 0 < n <= 40:
+            fam.append((n, mm))
+    except Exception:
+        pass
+    fam += [(n, mm) for mm in (2, 3, 200) for n in (1, 2, 3, 5, 7, 10, 11)]
+    nb = 6
+    bins = pd.DataFrame({"chrom": ["a"] * 3 + ["b"] * 3, "start": [0, 10, 20] * 2, "end": [10, 20, 30] * 2})
+    viol, tried = [], 0
+    d = tempfile.mkdtemp(prefix="pyvc_unord_")
+    rng = np.random.RandomState(11)
+    try:
+        for n, mm in fam:
+            tried += 1
+            chunks = []
+            for i in range(n):
+                k = 1 + (i % 3)
+                b1 = rng.randint(0, nb, k)
+                b2 = rng.randint(0, nb, k)
+                lo, hi = np.minimum(b1, b2), np.maximum(b1, b2)
+                df = pd.DataFrame({"bin1_id": lo, "bin2_id": hi, "count": rng.randint(1, 9, k)})
+                df = df.groupby(["bin1_id", "bin2_id"], as_index=False)["count"].sum().sort_values(["bin1_id", "bin2_id"])
+                chunks.append(df)
+            want = pd.concat(chunks).groupby(["bin1_id", "bin2_id"], as_index=False)["count"].sum().sort_values(["bin1_id", "bin2_id"])
+            p = os.path.join(d, f"u_{n}_{mm}.cool")
+            try:
+                create_from_unordered(p, bins, iter(chunks), mergebuf=4, max_merge=mm, temp_dir=d)
+                got = cooler.Cooler(p).pixels()[:]
+            except Exception as e:
+                viol.append(f"n_chunks={n} max_merge={mm}: raised {type(e).__name__}: {e}")
+                continue
+            a = [tuple(int(x) for x in r) for r in got[["bin1_id", "bin2_id", "count"]].to_numpy()]
+            b = [tuple(int(x) for x in r) for r in want[["bin1_id", "bin2_id", "count"]].to_numpy()]
+            if a != b:
+                viol.append(f"n_chunks={n} max_merge={mm}: {len(a)} pixels / total {sum(x[2] for x in a)} stored, "
+                            f"in-memory aggregate has {len(b)} pixels / total {sum(x[2] for x in b)}")
+            left = [f for f in os.listdir(d) if f.endswith(".multi.cool")]
+            if left:
+                viol.append(f"n_chunks={n} max_merge={mm}: temporary files left behind: {left[:2]}")
+    finally:
+        shutil.rmtree(d, ignore_errors=True)
+    return {"inputs_used": {"family": "chunk counts x max_merge, mergebuf=4", "cases_tried": tried}, "returned": None,
+            "violations": viol[:6], "violates_contract": bool(viol)}
+
+
+CUSTOM["cooler.create._create:create_from_unordered"] = _replay_create_from_unordered
